@@ -219,8 +219,11 @@ func genHistory(r *core.Rand, tier string) core.Case {
 // genLarge: the C05 large / magnitude shapes (wide nodes, long patterns, long texts, many
 // patterns) under Replace / ReplaceWithMask.
 func genLarge(r *core.Rand, tier string) core.Case {
-	pats, u, texts, _, _ := c05.GenLarge(r, tier)
+	pats, u, texts, _, shape := c05.GenLarge(r, tier)
 	lines := []string{c05.Header("C06", c05.SeqsBytes(pats))}
+	if shape == "big-nested" && c05.DumpAvailable() {
+		lines = append(lines, "dumpc")
+	}
 	for n := r.Range(2, 3); n > 0; n-- {
 		lines = append(lines, genOp(r, u, pats, texts))
 	}
@@ -277,7 +280,10 @@ func mk(pats []string, ops ...string) core.Case {
 }
 
 func corpus() []core.Case {
-	return append(c05.HistoryCorpus("C06", "mask abce 42", "replace xabcdushers #", "mask a你b\xffb 233", "replace a\xffb <>"), []core.Case{
+	big := c05.BigCorpus("C06", func(text []byte) []string {
+		return []string{"mask " + c05.Hex(text) + " 42", "replace " + c05.Hex(text) + " " + c05.Hex([]byte("#")), "replace ^ -"}
+	})
+	return append(append([]core.Case{big}, c05.HistoryCorpus("C06", "mask abce 42", "replace xabcdushers #", "mask a你b\xffb 233", "replace a\xffb <>")...), []core.Case{
 		// F4: a, c, abcde on abcde: scopes [0,1) [2,3) [0,5)
 		mk([]string{"a", "c", "abcde"}, "replace|abcde|*"),
 		mk([]string{"a", "c", "abcde"}, "mask|abcde|42"),
